@@ -18,7 +18,7 @@ Variable F : rcfType.
 Notation ArR := (ArR F).
 
 Section Column.
-Variables (n C num_iter : nat) (mm : cols F -> cols F) (tol brk : F) (n_extra : nat).
+Variables (n C num_iter : nat) (mm : cols F -> cols F) (tol : F -> bool) (brk : F) (n_extra : nat).
 Variable c : nat.
 Hypothesis hc : (c < C)%N.
 Variable Am : 'M[F]_n.
@@ -204,8 +204,7 @@ Let n := g_n g.
 Let B := prodn (g_batch g).
 Let C := (B * nvec)%N.
 Let num_iter := minn (g_max_iter g) n.
-Let r := lz_loop ArR n C num_iter (g_mm g) (g_tol g) (g_brk g) (g_extra g) num_iter.-1 1
-                 (lz_init ArR n C num_iter (g_mm g) init).
+Let r := lz_final ArR g nvec init.
 Let m := r.2.+1.
 
 Variable idx : nat.
@@ -232,19 +231,28 @@ Lemma prefix_facts :
       (forall j, (j < w)%N -> alf j = dotv (q j) (Am *m q j)) &
       ((w < m)%N -> bet w.-1 = 0 -> AR0 c Am w.-1 r.1)].
 Proof.
-have [Hn _ _ _] := final_facts Hrun Hstart.
 have hc := col_of_lt hidx.
+move: hw HG (fun i j => @final_mxT F g o nvec init Hrun Hstart idx i j hidx); rewrite /alf /q /bet /m /r.
+case: (final_cases Hrun Hstart) => [[_ ->]|[_ Hn ->]] /= hw' HG' HT.
+  (* stopped after the first step: w = 1 *)
+  have Ew : w = 1%N by lia.
+  rewrite Ew; split.
+  - exact: stop_ON.
+  - by [].
+  - by move=> [|j] // _; exact: (stop_al num_iter hc mm_lin).
+  - by [].
 have f0 : (0 < num_iter.-1)%N by lia.
 have Hk : (1 + num_iter.-1 = num_iter)%N by lia.
 have [Hs _] := init_tm_inv ArR n C num_iter (g_mm g) init.
-have HF := @loop_FIN n C num_iter (g_mm g) (g_tol g) (g_brk g) (g_extra g) c hc Am mm_lin Am_sym
+have HF := @loop_FIN n C num_iter (g_mm g) (lz_gt ArR g) (g_brk g) (g_extra g) c hc Am mm_lin Am_sym
              num_iter.-1 1 _ f0 Hk (ltn0Sn 0) Hs (init_INV hc mm_lin Hv).
-have HGw : G c w r.1.
-  move=> j hj; rewrite /be -(final_mxT Hrun Hstart hidx); first exact: HG.
-  - by rewrite -/r -/m; lia.
-  - by rewrite -/r -/m; lia.
-have [H1 H2 H3 H4] := HF w w0 hw HGw.
-by split=> // hwm; apply: H4; rewrite -/r; lia.
+set rr := lz_loop _ _ _ _ _ _ _ _ _ _ _ in hw' HG' HT HF *.
+have HGw : G c w rr.1.
+  move=> j hj; rewrite /be -HT; first exact: HG'.
+  - by lia.
+  - by lia.
+have [H1 H2 H3 H4] := HF w w0 hw' HGw.
+by split=> // hwm; apply: H4; lia.
 Qed.
 
 Lemma prefix_mxQ (x : 'I_n) (i : 'I_w) : Qw x i = q i x ord0.
